@@ -104,6 +104,54 @@ def conditional_flags(ctx, rule='A5f'):
     return n + 6
 
 
+def fast_records_auto_taken(ctx, rule='A5f'):
+    """The graph takes a selection choice by itself as soon as it has one option left (`resolve_single_selection_
+    choices`); such a choice exists in the architecture and is active.  The fast analyzer walks the choices it is
+    offered, so it has to pick up the automatically taken ones after every step (`get_taken_single_selection_
+    choices()`) and write them into the record of taken options it returns."""
+    outer = ctx.fn(f'{FAST}.get_graph')
+    fn = outer.nested.get('_get_graph')
+    if fn is None:
+        raise AnalysisError('FastHierarchyAnalyzer.get_graph._get_graph vanished')
+    rets = [r for r in returns_of(fn) if isinstance(r.value, ast.Tuple) and r.value.elts and
+            isinstance(r.value.elts[0], ast.Call) and norm(r.value.elts[0].func) == 'tuple' and r.value.elts[0].args and
+            isinstance(r.value.elts[0].args[0], ast.Name)]
+    if not rets:
+        raise AnalysisError('_get_graph: returned record of taken options not found')
+    record = rets[-1].value.elts[0].args[0].id
+    calls_ = [c for c in walk_fn(fn) if isinstance(c, ast.Call) and call_name(c) == 'get_taken_single_selection_choices']
+    # names that (transitively) hold the result of that call
+    holders = set()
+    changed = True
+    while changed:
+        changed = False
+        for st in walk_fn(fn):
+            if isinstance(st, ast.Assign):
+                src_has = any(c in list(ast.walk(st.value)) for c in calls_) or \
+                    any(isinstance(x, ast.Name) and x.id in holders for x in ast.walk(st.value))
+                if src_has:
+                    for t in st.targets:
+                        base = t
+                        while isinstance(base, ast.Subscript):
+                            base = base.value
+                        if isinstance(base, ast.Name) and base.id not in holders:
+                            holders.add(base.id)
+                            changed = True
+    stores = []
+    for lp in [l for l in ast.walk(fn.node) if isinstance(l, ast.For)]:
+        if any(isinstance(x, ast.Name) and x.id in holders for x in ast.walk(lp.iter)) or \
+                any(c in list(ast.walk(lp.iter)) for c in calls_):
+            stores += [st for st in ast.walk(lp) if isinstance(st, ast.Assign) and
+                       isinstance(st.targets[0], ast.Subscript) and norm(st.targets[0].value) == record]
+    ok = bool(calls_) and bool(stores)
+    ctx.ob(rule, fkey(fn, rule, 'auto-taken-choices-recorded'), ok, fn.where,
+           f'choices taken automatically by the graph are read back (get_taken_single_selection_choices) and written '
+           f'into `{record}`, the record of taken options the analyzer reports activeness from',
+           f'{len(calls_)} read-back(s), {len(stores)} store(s) into the record' if ok else
+           ('the automatically taken choices are never read back: a choice left with one option is reported inactive'
+            if not calls_ else f'read back but never written into `{record}`'))
+
+
 def check(ctx):
     vectors.manager_contract(ctx)
     vectors.eager_returns_stored_vector(ctx)
@@ -130,11 +178,14 @@ def check(ctx):
     # decode have to keep reporting the same activeness)
     from ..rules import invalidate as _inv7
     _inv7.check_invalidation(ctx, GP)
+    fast_records_auto_taken(ctx)
 
 
 from ..selftest import V  # noqa: E402
 
 VARIANTS = [
+    V('fast-forgets-auto-taken-choices', 'optimization/hierarchy/fast.py',
+      [("                for i_single, i_opt_single in single_taken_cache[cache_key]:\n                    taken_sel_opt[i_single] = i_opt_single\n", "")], key='auto-taken-choices-recorded'),
     V('desvar-compared-by-value', 'optimization/dv_output_defs.py',
       [("    def __str__(self):\n        if self.is_discrete:\n            return f'DV: ", "    def __hash__(self):\n        return hash(self.name)\n\n    def __eq__(self, other):\n        return isinstance(other, DesVar) and self.name == other.name\n\n    def __str__(self):\n        if self.is_discrete:\n            return f'DV: ")], key='A21i'),
     V('zero-variable-pattern-skipped', 'optimization/assign_enc/encoding.py',
